@@ -55,41 +55,83 @@ def parseSend (t : String) : Option (Bool × Nat × Nat) :=
     else none
   | [] => none
 
-def validStep (t : String) : Bool :=
+def plainOk (t : String) : Bool :=
   t == "S" || t == "c" || t == "r" || t == "X" || (parseSend t).isSome
+
+/-- split `outer{inner}` -/
+def splitNest (t : String) : String × Option String :=
+  match t.splitOn "{" with
+  | [o, i] => if i.endsWith "}" then (o, some ((i.dropEnd 1).toString)) else (t, none)
+  | _ => (t, none)
+
+def validStep (t : String) : Bool :=
+  match splitNest t with
+  | (o, none) => !t.contains '{' && !t.contains '}' && plainOk o
+  | (o, some i) =>
+    plainOk i && !i.contains '{' && !i.contains '}' &&
+    (if o == "c" then i.startsWith "t" else (o.startsWith "t" || o.startsWith "b") && plainOk o && (i == "c" || i == "r"))
+
+/-- a whole evaluation cycle; `inner` runs between the pop and the re-arm -/
+def doCycle (cfg : Cfg) (s : St) (inner : St → St × String) (nested : Bool) : St × String :=
+  if !s.started || stopped s || s.closing || s.stopReq then (s, "c:-" ++ (if nested then "{-}" else ""))
+  else
+    let s1 := stepD cfg s (.beginCycle 0)
+    let t := s1.time
+    let vals (x : St) : String :=
+      let vs := (x.delivered.filter (fun d => d.1 == t)).map (fun d => valsS cfg d.2)
+      if vs.isEmpty then "-" else ",".intercalate vs
+    match s1.cpc with
+    | .reset =>
+      let s2 := stepD cfg s1 .pop
+      let r := if nested then inner s2 else (s2, "")
+      let s3 := stepD cfg r.1 .rearm
+      (s3, s!"c{t + 1000}:{vals s2}" ++ (if nested then "{" ++ r.2 ++ "}" else ""))
+    | _ => (s1, s!"c{t + 1000}:{vals s1}" ++ (if nested then "{-}" else ""))
+
+/-- a whole send by producer `i`; `inner` runs between the admission and the mark -/
+def doSend (cfg : Cfg) (s : St) (bl : List (Nat × Nat)) (t : String) (blocking : Bool) (i v : Nat)
+    (inner : St → St × String) (nested : Bool) : St × List (Nat × Nat) × String :=
+  if bl.any (fun x => x.1 == i) then (s, bl, t ++ "=busy" ++ (if nested then "{-}" else "")) else
+  let k := if blocking then SendKind.blocking else SendKind.try_
+  let s1 := stepD cfg s (.enter i k v)
+  let s2 := match s1.pcs i with | .entered _ _ => stepD cfg s1 (.check i) | _ => s1
+  let s3 := match s2.pcs i with | .checked _ _ => stepD cfg s2 (.admitQ i) | _ => s2
+  match s3.pcs i with
+  | .blocked _ => (s3, bl ++ [(i, v)], t ++ "=B" ++ (if nested then "{-}" else ""))
+  | .admitted _ _ _ =>
+    let r := if nested then inner s3 else (s3, "")
+    let s4 := stepD cfg r.1 (.mark i)
+    (s4, bl, t ++ "=" ++ lastResult s4 i ++ (if nested then "{" ++ r.2 ++ "}" else ""))
+  | _ => (s3, bl, t ++ "=" ++ lastResult s3 i ++ (if nested then "{-}" else ""))
+
+def noInner (s : St) : St × String := (s, "")
 
 def runSched (cfg : Cfg) (steps : List String) : String :=
   let fuel := steps.length + 4
-  let r := steps.foldl (fun (acc : St × List (Nat × Nat) × List String) t =>
+  let r := steps.foldl (fun (acc : St × List (Nat × Nat) × List String) full =>
     let s := acc.1
     let bl := acc.2.1
+    let (t, innerTok) := splitNest full
+    let nested := innerTok.isSome
+    let it := innerTok.getD ""
+    -- the nested step, executed at the protocol point (no parked senders are involved)
+    let inner : St → St × String := fun x =>
+      if it == "c" then let r := doCycle cfg x noInner false; (r.1, r.2 ++ pendS r.1)
+      else if it == "r" then let x' := stepD cfg x .reqStop; (x', "r" ++ pendS x')
+      else match parseSend it with
+        | some (_, i, v) => let r := doSend cfg x [] it false i v noInner false; (r.1, r.2.2 ++ pendS r.1)
+        | none => (x, "?")
     let (s', bl', line) : St × List (Nat × Nat) × String :=
       if t == "S" then
         if s.started then (s, bl, t ++ "=-") else (stepD cfg s .start, bl, t)
       else if t == "c" then
-        if !s.started || stopped s || s.closing || s.stopReq then (s, bl, "c:-")
-        else
-          let s1 := stepD cfg s (.beginCycle 0)
-          let s2 := match s1.cpc with
-            | .reset => stepD cfg (stepD cfg s1 .pop) .rearm
-            | _ => s1
-          let vs := (s2.delivered.filter (fun d => d.1 == s2.time)).map (fun d => valsS cfg d.2)
-          (s2, bl, s!"c{s2.time + 1000}:" ++ (if vs.isEmpty then "-" else ",".intercalate vs))
+        let r := doCycle cfg s inner nested; (r.1, bl, r.2)
       else if t == "r" then (stepD cfg s .reqStop, bl, t)
       else if t == "X" then
         if !s.started || stopped s then (s, bl, t ++ "=-")
         else (stepD cfg (stepD cfg s .closeBegin) .queueStop, bl, t)
       else match parseSend t with
-        | some (blocking, i, v) =>
-          if bl.any (fun x => x.1 == i) then (s, bl, t ++ "=busy") else
-          let k := if blocking then SendKind.blocking else SendKind.try_
-          let s1 := stepD cfg s (.enter i k v)
-          let s2 := match s1.pcs i with | .entered _ _ => stepD cfg s1 (.check i) | _ => s1
-          let s3 := match s2.pcs i with | .checked _ _ => stepD cfg s2 (.admitQ i) | _ => s2
-          match s3.pcs i with
-          | .blocked _ => (s3, bl ++ [(i, v)], t ++ "=B")
-          | .admitted _ _ _ => let s4 := stepD cfg s3 (.mark i); (s4, bl, t ++ "=" ++ lastResult s4 i)
-          | _ => (s3, bl, t ++ "=" ++ lastResult s3 i)
+        | some (blocking, i, v) => doSend cfg s bl t blocking i v inner nested
         | none => (s, bl, t ++ "=?")
     let (s'', bl'', line') := settle cfg fuel s' bl' line
     (s'', bl'', acc.2.2 ++ [line' ++ pendS s''])) (({} : St), [], [])
